@@ -140,8 +140,41 @@ func (x *Exec) rangeNext(s *State, f *Frame, in *ssa.Next) Value {
 	return TupleVal{S(ok), kv, vv}
 }
 
+// mapCompByType: heap component of the Go map type written as in source
+// ("map[string]string"), resolved in the package of the function under contract.
+func (x *Exec) mapTypedSpec(e *Env, a []Value, suffix string) Value {
+	ts := exprStringOf(e, a[0])
+	m := e.toTerm(a[1])
+	k := e.toTerm(a[2])
+	want := "map." + sanitize(ts) + suffix
+	for name, comp := range e.S.Heap {
+		if name == shortKey(want) {
+			return S(Select(Select(comp, m), k))
+		}
+	}
+	// component not touched yet on this path: create it with the sorts of a string/int keyed map
+	sort := SArr(SInt, SArr(k.Sort, SBool))
+	if suffix == "@val" {
+		sort = SArr(SInt, SArr(k.Sort, SInt))
+	}
+	return S(Select(Select(e.S.heapComp(want, sort), m), k))
+}
+
+func exprStringOf(e *Env, v Value) string {
+	if sc, ok := v.(*Scalar); ok {
+		if s, ok := e.S.X.strByID(sc.T); ok {
+			return s
+		}
+	}
+	evalErr("map type must be a string literal")
+	return ""
+}
+
 // RegisterMapSpecFuncs adds mapHas(m, k) / mapVal(m, k) for maps of the given type.
 func (x *Exec) RegisterMapSpecFuncs() {
+	// mhas("map[K]V", m, k) / mval("map[K]V", m, k): typed variants
+	x.SpecFuncs["mhas"] = func(e *Env, a []Value) Value { return x.mapTypedSpec(e, a, "@has") }
+	x.SpecFuncs["mval"] = func(e *Env, a []Value) Value { return x.mapTypedSpec(e, a, "@val") }
 	x.SpecFuncs["mapHas"] = func(e *Env, a []Value) Value {
 		m := e.toTerm(a[0])
 		k := e.toTerm(a[1])
